@@ -41,11 +41,22 @@ inline std::vector<float> even_filling(unsigned nb) { return std::vector<float>(
 // set the static grid size (as the repository's own unit tests do) - all live PhaseSpaces must be gone
 inline void set_size(unsigned n, unsigned nb) { PhaseSpace::resetSize(n, nb); }
 
+// Arguments an object takes by const reference belong to the caller, who may change or free them afterwards: every harness hands such arguments over
+// in a scratch vector that is overwritten and destroyed right after the constructor returns (an object that kept a reference instead of a copy shows up
+// as a wrong result, or as a use-after-free under the sanitizer build).
+template <class T, class F> auto with_scratch(const std::vector<T>& v, F make) -> decltype(make(v)) {
+    auto* s = new std::vector<T>(v);
+    auto r = make(*s);
+    for (auto& x : *s) x = T(77);
+    s->clear(); s->shrink_to_fit(); delete s;
+    return r;
+}
+
 // grid with explicit extents; data may be nullptr (-> default Gaussian)
 inline psptr mkps(float qmin, float qmax, float pmin, float pmax, const std::vector<float>& filling,
                   const float* data = nullptr, double zoom = 1, double qscale = 1e-3, double pscale = 6.1e5,
                   double charge = 1e-9, double current = 1e-3) {
-    return std::make_shared<PhaseSpace>(qmin, qmax, qscale, pmin, pmax, pscale, nullptr, charge, current, filling, zoom, data);
+    return with_scratch(filling, [&](const std::vector<float>& f) { return std::make_shared<PhaseSpace>(qmin, qmax, qscale, pmin, pmax, pscale, nullptr, charge, current, f, zoom, data); });
 }
 // symmetric [-h,h]^2 grid shifted by (sx,sy) cells, like main() does
 inline psptr mkps_shift(unsigned n, float pqsize, float sx, float sy, const std::vector<float>& filling,
